@@ -2,7 +2,7 @@
    the abstraction to the wire spec's message, and an independent specification of what a
    sequence of API calls means (last writer wins per field; options as an insertion-ordered
    multiset, stably sorted by number when read). *)
-From CoapV Require Import Base Header Packet WireSpec.
+From CoapV Require Import Base Header Packet WireSpec UintOpt.
 
 Inductive pop :=
 | OSetVersion (v : N)
@@ -14,7 +14,10 @@ Inductive pop :=
 | OAddOption (k : N) (v : bytes)
 | OSetOption (k : N) (vs : list bytes)
 | OClearOption (k : N)
-| OClearAll.
+| OClearAll
+(* the public `header` field replaced by a new Header (version 1, Confirmable, token length 0, code 0.01, id 0) and the
+   token then set again, which brings the header's token-length field back in line *)
+| OResetHeader (t : bytes).
 
 (* ---- model: what the Rust does ---- *)
 Definition apply_op (p : packet) (o : pop) : outcome packet :=
@@ -29,6 +32,7 @@ Definition apply_op (p : packet) (o : pop) : outcome packet :=
   | OSetOption k vs => Ok (set_option p k vs)
   | OClearOption k => Ok (clear_option p k)
   | OClearAll => Ok (clear_all_options p)
+  | OResetHeader t => set_token (set_hdr p header_new) t
   end.
 
 Fixpoint run_ops (p : packet) (ops : list pop) : outcome packet :=
@@ -68,6 +72,7 @@ Definition spec_op (s : smsg) (o : pop) : smsg :=
                               (remove_key k (s_opts s) ++ map (fun v => (k, v)) vs) (s_payload s)
   | OClearOption k => mkSmsg (s_ver s) (s_type s) (s_token s) (s_code s) (s_mid s) (remove_key k (s_opts s)) (s_payload s)
   | OClearAll => mkSmsg (s_ver s) (s_type s) (s_token s) (s_code s) (s_mid s) [] (s_payload s)
+  | OResetHeader t => mkSmsg 1 0 t (Request Get) 0 (s_opts s) (s_payload s)
   end.
 
 Definition spec_run (ops : list pop) : smsg := fold_left spec_op ops smsg_new.
@@ -99,6 +104,7 @@ Definition op_wf (o : pop) : bool :=
   | OSetOption k vs => (k <? 65536) && forallb (fun v => (len v <=? MAX_EXT) && forallb (fun b => b <? 256) v) vs
   | OClearOption k => k <? 65536
   | OClearAll => true
+  | OResetHeader t => (len t <=? 8) && forallb (fun b => b <? 256) t
   end.
 Definition ops_wf (ops : list pop) : bool := forallb op_wf ops.
 
@@ -115,5 +121,10 @@ Definition rd_op : rd pop := fun s =>
   | 7 :: k :: r => match rd_list rd_bytes r with Some (vs, r') => Some (OSetOption k vs, r') | None => None end
   | 8 :: k :: r => Some (OClearOption k, r)
   | 9 :: r => Some (OClearAll, r)
+  (* the typed convenience setters: set_content_format(n) and set_observe_value(n) replace the option's values by the
+     number's shortest form *)
+  | 10 :: n :: r => Some (OSetOption 12 [be_min n], r)
+  | 11 :: n :: r => Some (OSetOption 6 [be_min n], r)
+  | 12 :: r => match rd_bytes r with Some (t, r') => Some (OResetHeader t, r') | None => None end
   | _ => None
   end.
